@@ -118,6 +118,23 @@ struct logging_streambuf : std::streambuf
 
 static void on_alarm(int) {}
 
+// a std::istream whose buffer produces its data on demand, a few bytes per refill (a generator, a decompressor, a pipe):
+// in_avail() is 0 between refills - which says nothing about the end of the data
+struct ondemand_streambuf : std::streambuf
+{
+    std::string data; size_t pos = 0; size_t refill; char buf[8192];
+    ondemand_streambuf(std::string d, size_t r) : data(std::move(d)), refill(r) {}
+    int_type underflow() override
+    {
+        if (pos >= data.size()) return traits_type::eof();
+        size_t n = std::min(std::min(refill, sizeof buf), data.size() - pos);
+        memcpy(buf, data.data() + pos, n);
+        pos += n;
+        setg(buf, buf, buf + n);
+        return traits_type::to_int_type(buf[0]);
+    }
+};
+
 // source that returns the scripted chunks (never more than asked), then 0 for ever
 struct chunk_source : input_stream
 {
@@ -298,7 +315,12 @@ static void run_case(toks & tk, const std::string & certdir)
                 {
                     // through the public adapter over a std::istream holding the whole source
                     std::string all; for (const std::string & c : chunks) all += c;
-                    std::istringstream iss(all);
+                    // (every other such call: the stream produces its data on demand, 1 / 3000 / 8192 bytes per refill)
+                    static const size_t refills[] = {3000, 1, 8192, 777};
+                    std::istringstream iss0(all);
+                    ondemand_streambuf ob(all, refills[(ci / 2) % 4]);
+                    std::istream iss1(&ob);
+                    std::istream & iss = (all.size() % 2 == 0 && ci % 4 < 2) ? static_cast<std::istream &>(iss0) : iss1;
                     rec_callback cb; cb.answers = cb_answers;
                     istream_adapter src(iss);
                     replies rs;
